@@ -383,9 +383,11 @@ def bytes_source(v, string_results=None):
             return bytes_source(inner, string_results)
         return inner
     if v[0] in ("ext", "fn") and v[1] in (".encode()", "encode") and len(v[2]) == 2:
-        codec, s_ = v[2][0], v[2][1]
-        if codec[0] == "c" and isinstance(codec[1], str) and codec[1].lower() in LATIN1:
-            return chars_source(s_, string_results)
+        # (receiver, codec) in either order, depending on how the call was reached
+        codec = [x for x in v[2] if x[0] == "c" and isinstance(x[1], str)]
+        rest = [x for x in v[2] if not (x[0] == "c" and isinstance(x[1], str))]
+        if len(codec) == 1 and len(rest) == 1 and codec[0][1].lower() in LATIN1:
+            return chars_source(rest[0], string_results)
     return None
 
 
